@@ -126,7 +126,13 @@ def in_scope(pid, tag):
     sc = SCOPES.get(pid, None)
     if sc is None or tag is None:
         return True
-    return tag in sc
+    if tag in sc:
+        return True
+    # a walk method the scope tables have never heard of (a new helper walk) is nobody's in particular: report it
+    known = set().union(*[v for v in SCOPES.values() if v]) | ENTITY_WALKS | VIEW_WALKS | SERDE_WALKS | {
+        'free_components', 'try_free_components', 'clone_components', 'clone_from_components', 'component_eq', 'par_view', 'debug_components', 'extract_component_pointers',
+        'debug_identifier', 'create_archetype_identifier', 'claims', 'indices', 'assert_no_duplicates', 'filter', 'canonical'}
+    return tag not in known
 
 
 def run_property(pid, tier, seed, repo=None):
